@@ -354,6 +354,134 @@ func sameTopStructure(ms *gen.SpecM, abs, conc cty.Value) string {
 	return ""
 }
 
+// containsSingleBlock reports whether the spec subtree has a specification that reads
+// one block as such (BlockSpec, BlockAttrsSpec): for those ext/dynblock/README.md states
+// that an unknown for_each is represented by exactly one block ("no explicit representation
+// of the fact that the length of the collection may eventually be different than one").
+func containsSingleBlock(s *gen.SpecM) bool {
+	if s == nil {
+		return false
+	}
+	if s.Kind == gen.SBlock || s.Kind == gen.SBlockAttrs {
+		return true
+	}
+	for _, f := range s.Fields {
+		if containsSingleBlock(f) {
+			return true
+		}
+	}
+	for _, e := range s.Elems {
+		if containsSingleBlock(e) {
+			return true
+		}
+	}
+	return containsSingleBlock(s.Nested) || containsSingleBlock(s.Primary) || containsSingleBlock(s.Default)
+}
+
+// specConsistent judges the value decoded with wholly unknown for_each collections against
+// the value decoded with the collections known: everything the abstract value states as
+// known must hold concretely (consistent), except the presence of a block read by a
+// single-block specification (documented compromise, see containsSingleBlock).
+func specConsistent(s *gen.SpecM, abs, conc cty.Value, path string) string {
+	abs, _ = abs.Unmark()
+	conc, _ = conc.Unmark()
+	generic := func() string {
+		if containsSingleBlock(s) {
+			return ""
+		}
+		return consistent(abs, conc, path)
+	}
+	structural := abs.IsKnown() && conc.IsKnown() && !abs.IsNull() && !conc.IsNull()
+	switch s.Kind {
+	case gen.SObject:
+		if !structural || !abs.Type().IsObjectType() || !conc.Type().IsObjectType() {
+			return generic()
+		}
+		for _, n := range s.FieldNames() {
+			if !abs.Type().HasAttribute(n) || !conc.Type().HasAttribute(n) {
+				return fmt.Sprintf("%s: attribute %q missing", path, n)
+			}
+			if msg := specConsistent(s.Fields[n], abs.GetAttr(n), conc.GetAttr(n), path+"."+n); msg != "" {
+				return msg
+			}
+		}
+		return ""
+	case gen.STuple:
+		if !structural || !abs.Type().IsTupleType() || !conc.Type().IsTupleType() || abs.LengthInt() != len(s.Elems) || conc.LengthInt() != len(s.Elems) {
+			return generic()
+		}
+		for i, e := range s.Elems {
+			idx := cty.NumberIntVal(int64(i))
+			if msg := specConsistent(e, abs.Index(idx), conc.Index(idx), fmt.Sprintf("%s[%d]", path, i)); msg != "" {
+				return msg
+			}
+		}
+		return ""
+	case gen.SBlock:
+		if !abs.IsKnown() {
+			return ""
+		}
+		if abs.IsNull() {
+			if !conc.IsNull() {
+				return fmt.Sprintf("%s: no %q block abstractly, one concretely", path, s.Name)
+			}
+			return ""
+		}
+		if conc.IsNull() {
+			return "" // the placeholder block of an unknown for_each that is concretely empty
+		}
+		return specConsistent(s.Nested, abs, conc, path)
+	case gen.SBlockAttrs:
+		if !structural {
+			return ""
+		}
+		return ""
+	case gen.SBlockList, gen.SBlockTuple:
+		if !structural || !containsSingleBlock(s.Nested) {
+			return consistent(abs, conc, path)
+		}
+		if abs.LengthInt() != conc.LengthInt() {
+			return fmt.Sprintf("%s: %d %q blocks abstractly (known), %d concretely", path, abs.LengthInt(), s.Name, conc.LengthInt())
+		}
+		ai, ci := abs.ElementIterator(), conc.ElementIterator()
+		for i := 0; ai.Next() && ci.Next(); i++ {
+			_, av := ai.Element()
+			_, cv := ci.Element()
+			if msg := specConsistent(s.Nested, av, cv, fmt.Sprintf("%s[%d]", path, i)); msg != "" {
+				return msg
+			}
+		}
+		return ""
+	case gen.SBlockSet, gen.SBlockMap, gen.SBlockObject:
+		if !structural || !containsSingleBlock(s.Nested) {
+			return consistent(abs, conc, path)
+		}
+		if s.Kind == gen.SBlockSet && !abs.IsWhollyKnown() {
+			return "" // elements with unknown parts may coincide concretely
+		}
+		if len(s.LabelNames) <= 1 && abs.LengthInt() != conc.LengthInt() {
+			return fmt.Sprintf("%s: %d %q blocks abstractly (known), %d concretely", path, abs.LengthInt(), s.Name, conc.LengthInt())
+		}
+		return ""
+	default:
+		return generic()
+	}
+}
+
+// hasEmptyMapVal reports whether v contains a known empty map (the signature of the known
+// finding about multi-label block maps without blocks).
+func hasEmptyMapVal(v cty.Value) bool {
+	found := false
+	_ = cty.Walk(v, func(_ cty.Path, x cty.Value) (bool, error) {
+		u, _ := x.Unmark()
+		if u.IsKnown() && !u.IsNull() && u.Type().IsMapType() && u.LengthInt() == 0 {
+			found = true
+		}
+		return !found, nil
+	})
+	return found
+}
+
 func staticSiblingOfDyn(b *ast.Body) bool {
 	types := map[string]int{}
 	for _, it := range b.Items {
@@ -410,7 +538,7 @@ func TestC18_Expand(t *testing.T) {
 			featClasses(c, "dyn_", g.feat)
 			// marked / unknown variants of the scope for the implementation run
 			ctx := evalCtx(sc)
-			unknownMode := rapid.IntRange(0, 7).Draw(t, "unknown_for_each") == 0
+			unknownMode := rapid.IntRange(0, 3).Draw(t, "unknown_for_each") == 0
 			for _, name := range sc.Names {
 				v := sc.Vals[name]
 				if v.CanIterateElements() && rapid.IntRange(0, 3).Draw(t, "mark_collection") == 0 {
@@ -433,12 +561,39 @@ func TestC18_Expand(t *testing.T) {
 			c.Guard("Decode(Expand)", func() { got, gdiags = hcldec.Decode(dynblock.Expand(f.Body, ctx), spec, ctx) })
 			implied := hcldec.ImpliedType(spec)
 			if !ref.Conforms(got.Type(), implied.WithoutOptionalAttributesDeep()) {
-				if !(hasMultiLabelBlockMap(ms) && c.Known("blockmap-multilabel-empty-type")) && !(gdiags.HasErrors() && tupleBecameList(got.Type(), implied.WithoutOptionalAttributesDeep()) && c.Known("blocklist-unifies-nested-tuples-to-list")) && !(hasInconsistentTypesDiag(gdiags) && c.Known("blocklist-inconsistent-types-returns-dynamicval")) {
+				if !(hasMultiLabelBlockMap(ms) && hasEmptyMapVal(got) && c.Known("blockmap-multilabel-empty-type")) && !(gdiags.HasErrors() && tupleBecameList(got.Type(), implied.WithoutOptionalAttributesDeep()) && c.Known("blocklist-unifies-nested-tuples-to-list")) && !(hasInconsistentTypesDiag(gdiags) && c.Known("blocklist-inconsistent-types-returns-dynamicval")) {
 					c.Failf("type-nonconforming", "decoded value of type %#v does not conform to the implied type %#v (%s)", got.Type(), implied, diagStr(gdiags))
 				}
 			}
 			if unknownMode {
 				c.Class("unknown_mode")
+				// the abstract result (some for_each collections wholly unknown) must be consistent
+				// with the concrete one: whatever it states as known - a list length, the presence
+				// of a block, an attribute value - holds when the collections are known
+				cctx := evalCtx(sc)
+				madeUnknown := false
+				for name, v := range ctx.Variables {
+					if v.IsMarked() {
+						cctx.Variables[name] = v
+					}
+					if !v.IsWhollyKnown() && sc.Vals[name].IsWhollyKnown() {
+						madeUnknown = true
+					}
+				}
+				if madeUnknown {
+					var conc cty.Value
+					var cdiags hcl.Diagnostics
+					c.Guard("Decode(Expand) concrete", func() { conc, cdiags = hcldec.Decode(dynblock.Expand(f.Body, cctx), spec, cctx) })
+					if hasMultiLabelBlockMap(ms) && (hasEmptyMapVal(got) || hasEmptyMapVal(conc)) && c.Known("blockmap-multilabel-empty-type") {
+						// known: an empty multi-label block map has a type one level short of the implied one
+						c.Class("excluded_known_multilabel_empty_map")
+					} else if !gdiags.HasErrors() && !cdiags.HasErrors() {
+						c.Class("unknown_mode_compared")
+						if msg := specConsistent(ms, unmarkedDeep(got), unmarkedDeep(conc), "result"); msg != "" {
+							c.Failf("unknown-for-each-inconsistent", "with some for_each collections unknown the result %#v is not consistent with the result for known collections %#v: %s", got, conc, msg)
+						}
+					}
+				}
 				c.Done(false, "")
 				return
 			}
